@@ -761,6 +761,15 @@ class WorkerPool:
                     n_tasks = 0
                     while True:
 
+                        # A chunk can be larger than max_tasks_active. In that case we don't obtain new tasks until
+                        # enough results are in, to keep the number of tasks taken from the iterable bounded
+                        while not self._worker_comms.exception_thrown() and n_active > max_tasks_active:
+                            try:
+                                yield imap_iterator.next(block=True, timeout=0.01)
+                                n_active -= 1
+                            except queue.Empty:
+                                pass
+
                         # Obtain next chunk of tasks
                         try:
                             chunk_of_tasks = next(iterator_of_chunked_args)
@@ -768,8 +777,10 @@ class WorkerPool:
                         except StopIteration:
                             break
 
-                        # To keep the number of active tasks below max_tasks_active, we have to wait for results
-                        while (not self._worker_comms.exception_thrown() and
+                        # To keep the number of active tasks below max_tasks_active, we have to wait for results. When
+                        # nothing is active there is nothing to wait for: a chunk larger than max_tasks_active has to be
+                        # submitted at some point, otherwise we would wait forever
+                        while (not self._worker_comms.exception_thrown() and n_active > 0 and
                                n_active + len(chunk_of_tasks) > max_tasks_active):
                             try:
                                 yield imap_iterator.next(block=True, timeout=0.01)
